@@ -10,7 +10,7 @@ no groom/ungroom rename) is `Valid`, provided
     classes without a hand-coded rule and without exclusivity groups (all but 2 of the request classes);
     `validate_of_counts` reduces it to the extra rule when the groups are counted over non-`None` fields.
 -/
-import OfxProofs.Lemmas.AggRound
+import OfxProofs.Lemmas.NodeRT
 import OfxProofs.Props.C04
 
 namespace Ofx.Agg
@@ -70,7 +70,7 @@ theorem validFields_of_match : ∀ {L : List Attr} {fs : List (Str × Node)},
 theorem validItems_of_forall : ∀ (items : List Node), (∀ m ∈ items, Valid S cv esc Dom m) →
     ValidItems S cv esc Dom items
   | [], _ => by simp [ValidItems]
-  | m :: r, h => ⟨h m (by simp), validItems_of_forall r (fun x hx => h x (List.mem_cons_of_mem _ hx))⟩
+  | m :: r, h => ⟨fun _ => h m (by simp), validItems_of_forall r (fun x hx => h x (List.mem_cons_of_mem _ hx))⟩
 
 /-- `validate_args` of a class without a hand-coded rule and without exclusivity groups accepts everything -/
 theorem validate_trivial (c : Cls) (args : List Node) (kw : List (Str × Node)) (hx : c.extra = .none)
@@ -100,9 +100,10 @@ theorem construct_valid {c : Cls} {ci : Nat} (hp : ClsPlain S c ci) {args : List
   obtain ⟨hitems, happ⟩ := mapM_applyArg_same S c args items ha
   subst hitems
   refine ⟨⟨c, ?_⟩, ?_, ?_⟩
-  · refine ⟨hp.hc, hp.concrete, hp.hfind, hp.wf, hp.hel, hp.hg, hp.hug,
-      hboth.imp (fun _ _ _ hv => hv.1), ?_, ?_, hvalidate fields hs⟩
-    · intro m hm
+  · refine ⟨hp.hc, hp.concrete, hp.hfind, hp.wf, Or.inl ⟨hp.hg, hp.hug⟩,
+      hboth.imp (fun _ _ _ hv => hv.1), ?_, (fun h => by rw [hp.hel] at h; cases h), ?_,
+      by rw [rawItemsOf_plain S cv esc c items hp.hel]; exact hvalidate fields hs⟩
+    · intro _ m hm
       obtain ⟨_, cj, f, i, cjc, rfl, hcj, hdot⟩ := hargs m hm
       have := happ _ hm
       simp only [applyArg, argClassName, clsName, hcj] at this
